@@ -101,10 +101,50 @@ def ensure_facts(root=None, tests=False, target_dir=None, facts_root=None):
         lock.close()
 
 
+def ensure_fixture_facts(fx_dir):
+    """Facts of the positive-control fixture crate (same driver, same flags)."""
+    h = hashlib.sha256()
+    for d, dn, fn in os.walk(os.path.join(fx_dir, "src")):
+        for f in sorted(fn):
+            h.update(open(os.path.join(d, f), "rb").read())
+    h.update(open(os.path.join(fx_dir, "Cargo.toml"), "rb").read())
+    try:
+        st = os.stat(DRIVER)
+        h.update(("%d:%d" % (st.st_size, int(st.st_mtime))).encode())
+    except OSError:
+        pass
+    out = os.path.join(CACHE, "facts", "fx-" + h.hexdigest()[:20])
+    want = os.path.join(out, "poscontrol-lib.facts.json")
+    os.makedirs(CACHE, exist_ok=True)
+    lock = open(os.path.join(CACHE, "lock-fx"), "w")
+    fcntl.flock(lock, fcntl.LOCK_EX)
+    try:
+        if os.path.isfile(want) and os.path.isfile(os.path.join(out, "OK")):
+            return out
+        if not os.path.isfile(DRIVER):
+            raise ExtractionError("driver not built: run MANIFEST.setup_cmd")
+        os.makedirs(out, exist_ok=True)
+        tgt = os.path.join(CACHE, "target-fx")
+        nonce = "fx-%d-%d" % (os.getpid(), int(time.time() * 1000))
+        sysroot = subprocess.run(["rustc", "+nightly", "--print", "sysroot"], capture_output=True, text=True).stdout.strip()
+        subprocess.run(["rm", "-rf", os.path.join(tgt, "debug", ".fingerprint")])
+        env = dict(os.environ, LD_LIBRARY_PATH=sysroot + "/lib", RUSTFLAGS="-Zmir-opt-level=0 -Awarnings", RUSTC_WORKSPACE_WRAPPER=DRIVER,
+                   CARGO_TARGET_DIR=tgt, ASCA_FACTS_OUT=out, ASCA_FACTS_NONCE=nonce, CARGO_NET_OFFLINE="true")
+        r = subprocess.run(["cargo", "+nightly", "check", "--offline", "--lib", "-q"], cwd=fx_dir, env=env, stdout=subprocess.PIPE,
+                           stderr=subprocess.STDOUT, text=True)
+        if r.returncode != 0 or not os.path.isfile(want):
+            raise ExtractionError("fixture extraction failed:\n" + r.stdout[-3000:])
+        open(os.path.join(out, "OK"), "w").write(nonce)
+        return out
+    finally:
+        fcntl.flock(lock, fcntl.LOCK_UN)
+        lock.close()
+
+
 def _prune(facts_root, keep, max_keep=6):
     try:
         ds = [os.path.join(facts_root, d) for d in os.listdir(facts_root)]
-        ds = [d for d in ds if os.path.isdir(d) and d != keep]
+        ds = [d for d in ds if os.path.isdir(d) and d != keep and not os.path.basename(d).startswith("fx-")]
         ds.sort(key=lambda d: os.stat(d).st_mtime, reverse=True)
         for d in ds[max_keep:]:
             subprocess.run(["rm", "-rf", d])
